@@ -19,7 +19,7 @@ func init() {
 	register(&propDef{
 		ID:          "C15",
 		Run:         ruleC15,
-		Explanation: "Decides the wiring of field-name redaction structurally (necessary conditions of C15): (R1) the per-line mode flag is true only via strings.HasPrefix(attr.ns, p) with p ranging over the whole --redactFieldNames list, and is the argument of all command-walker calls and the guard of the plan-summary rewrite; (R2) at every walker-to-walker call the callee's field-name flag is the caller's own flag parameter (the mode can neither be lost nor gained below the root); (R3) under the flag every map walker renames non-operator keys with HashName(current key), '$'-strings that are not operators are stored as HashName(string), and the sort document is dispatched; (R4) every rename is control dependent on the flag (shared with C12-R6); (R5) the plan-summary rewrite is reached on every path on which the mode holds, uses HashName, and never substitutes over its own output (no Replace whose haystack is loop-carried from its previous result with a pseudonym as replacement). NOT decided: whole-line absence for arbitrary names; whether every grammar position that holds a user field name is typed FieldName.",
+		Explanation: "Decides the wiring of field-name redaction structurally (necessary conditions of C15): (R1) the per-line mode flag is true only via strings.HasPrefix(attr.ns, p) with p ranging over the whole --redactFieldNames list, and is the argument of all command-walker calls and the guard of the plan-summary rewrite; (R2) at every walker-to-walker call the callee's field-name flag is the caller's own flag parameter (the mode can neither be lost nor gained below the root); (R3) under the flag every map walker renames non-operator keys with HashName(current key), '$'-strings that are not operators are stored as HashName(string), and the sort document is dispatched; (R4) every rename is control dependent on the flag (shared with C12-R6); (R5) the plan-summary rewrite is reached on every path on which the mode holds, uses HashName, and never substitutes over its own output (no Replace whose haystack is loop-carried from its previous result with a pseudonym as replacement). R3 also: no top-level key of the core table lacks '$'; a value rename is never decided by looking the value up in the operator tables. NOT decided: whole-line absence for arbitrary names; whether every grammar position that holds a user field name is typed FieldName.",
 		RuleText:    "obligations = the mode flag's definition, each walker call site carrying the flag (about 30), map-walker loops (key phi), '$'-string sinks, plan-summary guard and rewrite shape, HashName call-site guards",
 	})
 }
